@@ -307,16 +307,21 @@ namespace bloch::compiler {
     Token Lexer::scanString() {
         // Strings are double-quoted and may span lines; we do not process escapes yet.
         size_t start = m_position;
+        // The opening quote has already been consumed; the token starts there.
+        const int startLine = m_line;
+        const int startColumn = m_column - 1;
         while (m_position < m_source.size() && peek() != '"') {
-            if (peek() == '\n')
+            if (advance() == '\n') {
                 m_line++;
-            (void)advance();
+                m_column = 1;
+            }
         }
 
         if (peek() == '"') {
             (void)advance();
-            return makeToken(TokenType::StringLiteral,
-                             std::string(m_source.substr(start - 1, m_position - start + 1)));
+            return Token{TokenType::StringLiteral,
+                         std::string(m_source.substr(start - 1, m_position - start + 1)), startLine,
+                         startColumn};
         }
 
         reportError("unterminated string literal");
@@ -327,12 +332,20 @@ namespace bloch::compiler {
     Token Lexer::scanChar() {
         // Char literals are simple: '\'' X '\'' with no escaping support for now.
         size_t start = m_position;
-        if (m_position < m_source.size())
-            (void)advance();
+        // The opening quote has already been consumed; the token starts there.
+        const int startLine = m_line;
+        const int startColumn = m_column - 1;
+        if (m_position < m_source.size()) {
+            if (advance() == '\n') {
+                m_line++;
+                m_column = 1;
+            }
+        }
 
         if (peek() == '\'') {
             (void)advance();
-            return makeToken(TokenType::CharLiteral, std::string(m_source.substr(start - 1, 3)));
+            return Token{TokenType::CharLiteral, std::string(m_source.substr(start - 1, 3)),
+                         startLine, startColumn};
         }
 
         reportError("unterminated char literal");
